@@ -15,6 +15,7 @@ func checkC07(cx *Ctx, r *Report) {
 	w, fx := cx.W, cx.Fx
 	// a request that makes the handler panic is not accepted: the panic discipline on the three request handlers (shared with C09)
 	cx.checkNoPanicOnRequestPaths(r, kSSO, kLogout, kAttr)
+	cx.checkRequestTimeLayout(r)
 	r.Clauses = []string{
 		"C07 is a liveness property over all serialisations; acceptance itself is not decided. Decided are necessary conditions whose violation provably rejects some conformant request:",
 		"decode tables: every field of the request types the handlers read (AuthnRequest, LogoutRequest, AttributeQuery, SOAP envelope, NameID, Subject, Conditions, Signature and children, SP metadata) is decoded under the schema's name / namespace / kind",
@@ -674,4 +675,33 @@ func (cx *Ctx) checkRedirectOctetsShape(r *Report) {
 		}
 	}
 	r.Check(withRS >= 1 && withoutRS >= 1, "R-VFG", "ValidateRedirectSignature:shape#", w.FnPos(vr), fmt.Sprintf("%d templates", n), "the verified string is not built in the two prescribed shapes (with and without RelayState)")
+}
+
+// checkRequestTimeLayout: the timestamps of an AuthnRequest's Conditions are parsed with a layout that accepts every
+// precision a conformant peer may send: a compile-time constant whose fractional part, if any, is written with 9s
+// (time.Parse then takes any number of fractional digits). The time format the provider is configured with for the
+// messages it WRITES may have a fixed-width fraction (".000"), which rejects every other precision.
+func (cx *Ctx) checkRequestTimeLayout(r *Report) {
+	w := cx.W
+	n := 0
+	for f := range w.scopeOf(w.Func(kSSO)) {
+		for _, c := range callsIn(f) {
+			g := calleeOf(c)
+			if g == nil || w.FuncKey(g) != "provider.checkIfRequestTimeIsStillValid" || len(c.Common().Args) < 3 {
+				continue
+			}
+			n++
+			layout, isC := constString(c.Common().Args[2])
+			ok := isC
+			if isC {
+				if i := strings.Index(layout, "."); i >= 0 && i+1 < len(layout) && layout[i+1] == '0' {
+					ok = false
+				}
+			}
+			r.Check(ok, "R-STRICT", "sso:conditions-layout@"+w.FuncKey(f), w.InstrPos(c), "parsed with a constant layout that accepts every fractional precision", "the Conditions of an AuthnRequest are parsed with a layout that is not a lenient compile-time constant (e.g. the configurable output time format): with a fixed-width fraction configured, timestamps of any other precision are refused")
+		}
+	}
+	if n == 0 {
+		r.Ok("R-STRICT", "sso:conditions-layout", "", "no call of the time check in the SSO handler's scope (judged by C06)")
+	}
 }
